@@ -776,8 +776,8 @@ def correspondence(ctx):
     from snaxc.phs.combine import append_to_abstract_graph
     from snaxc.phs.decode import decode_abstract_graph
     rng = ctx.rng
-    n = ctx.n(100, 1500)
-    cases = {k: [] for k in ("enc", "app", "dec", "tsw", "wf")}
+    n = ctx.n(70, 1500)
+    cases = {k: [] for k in ("enc", "app", "dec", "tsw", "wf", "kok")}
     meta = {k: [] for k in cases}
     conv = Conv()
     for i in range(n):
@@ -793,6 +793,9 @@ def correspondence(ctx):
             ctx.count({"L1": "encode", "body": texts[ki]}, len(b[1]) > 1, "enc" + texts[ki], "L1:encode")
             if err:
                 break
+            # what the theorems assume of an encoded kernel graph (concrete, unique ids, well-formed)
+            cases["kok"].append(c_pe(cpe))
+            meta["kok"].append(dict(text=texts[ki]))
             if G is None:
                 G = pe
             else:
@@ -820,7 +823,11 @@ def correspondence(ctx):
             cases["wf"].append(c_pe(cG))
             meta["wf"].append(dict(texts=texts, order=order, step=step))
             # decode every kernel of the history (also the ones not merged yet: error / default paths)
+            merged = set(order[:step + 1])
+            extra = order[step + 1] if step + 1 < len(order) else None
             for kj in range(len(texts)):
+                if kj not in merged and kj != extra:
+                    continue
                 gj = real_encode(parse_generic(texts[kj]))
                 cg = conv.pe(gj)
                 sw, err = guarded(decode_abstract_graph, G, gj)
@@ -834,10 +841,11 @@ def correspondence(ctx):
         "dec": "fun c : pe * pe * option (list Z) => match c with (G, g, r) => opt_eqb (list_eqb Z.eqb) (decode G g) r end",
         "tsw": "fun c : pe * option nat => opt_eqb Nat.eqb (true_switches (fst c)) (snd c)",
         "wf": "pe_wf",
+        "kok": "fun g : pe => is_concrete g && nodup_ids (map nid (pnodes g)) && pe_wf g",
     }
     # shards: few files (every coqc start costs seconds), each with one list per kind
     types = {"enc": "body * option pe", "app": "pe * pe * option pe", "dec": "pe * pe * option (list Z)",
-             "tsw": "pe * option nat", "wf": "pe"}
+             "tsw": "pe * option nat", "wf": "pe", "kok": "pe"}
     kinds = list(tests)
     NSH = 4 if not ctx.thorough else 8
     shards = [{k: [] for k in kinds} for _ in range(NSH)]
